@@ -3,6 +3,7 @@ package main
 import (
 	"encoding/json"
 	"fmt"
+	"io"
 	"reflect"
 	"strings"
 
@@ -76,7 +77,29 @@ func c05Run(w *verifrt.World, tier Tier) *RunResult {
 	// rules whose per-transaction state (target removals on a rule with
 	// configured exclusions, rule removal by tag, captures) a predecessor can set
 	// by hitting a URI token while the probe does not
-	text := cfg.Text() + strings.Join(c06Special(t), "\n") + "\n" + fmt.Sprintf("SecRule %s \"@unconditionalMatch\" \"id:9991,phase:5,pass,nolog\"\n", c05DumpVars)
+	// override mode (a quarter of the runs): one ctl action fires only for requests
+	// that carry X-Pred (every predecessor, never the probe), and witness rules
+	// make every kind of override visible on the probe (body limits, body access,
+	// engine, audit settings, body processor, rule and target removals)
+	override := t.Draw(4) == 0
+	ovr := ""
+	if override {
+		cfg.ReqAccess, cfg.RespAccess = true, true
+		ctl := pick(t, []string{
+			"requestBodyLimit=5", "requestBodyLimit=3", "responseBodyLimit=7", "responseBodyLimit=2", "requestBodyAccess=Off", "responseBodyAccess=Off",
+			"ruleEngine=Off", "ruleEngine=DetectionOnly", "auditEngine=Off", "auditEngine=On", "auditEngine=RelevantOnly", "auditLogParts=+E", "auditLogParts=-H", "auditLogParts=-B",
+			"forceRequestBodyVariable=On", "forceResponseBodyVariable=On", "requestBodyProcessor=JSON", "requestBodyProcessor=XML", "requestBodyProcessor=MULTIPART", "responseBodyProcessor=JSON",
+			"ruleRemoveById=9972", "ruleRemoveById=9970-9974", "ruleRemoveByTag=ovr", "ruleRemoveByMsg=ovr", "ruleRemoveTargetById=9972;ARGS_POST", "ruleRemoveTargetById=9974;ARGS:a",
+			"ruleRemoveTargetByTag=ovr;ARGS_POST:a", "ruleRemoveTargetByMsg=ovr;ARGS_GET", "hashEngine=On", "hashEnforcement=On", "debugLogLevel=9",
+		})
+		ovr = fmt.Sprintf("SecRule REQUEST_HEADERS:X-Pred \"@streq 1\" \"id:9970,phase:1,pass,nolog,ctl:%s\"\n", ctl) +
+			"SecRule REQUEST_BODY \"@rx .\" \"id:9971,phase:2,pass,nolog,tag:'ovr',msg:'ovr'\"\n" +
+			"SecRule ARGS_POST|ARGS_GET \"@rx .\" \"id:9972,phase:2,pass,nolog,tag:'ovr',msg:'ovr'\"\n" +
+			"SecRule RESPONSE_BODY \"@rx .\" \"id:9973,phase:4,pass,nolog,tag:'ovr'\"\n" +
+			"SecRule ARGS \"@rx (?i)evil\" \"id:9974,phase:2,deny,status:403,log,auditlog,tag:'ovr',msg:'ovr'\"\n"
+		res.count("override_runs", 1)
+	}
+	text := cfg.Text() + ovr + strings.Join(c06Special(t), "\n") + "\n" + fmt.Sprintf("SecRule %s \"@unconditionalMatch\" \"id:9991,phase:5,pass,nolog\"\n", c05DumpVars)
 	ro := &reqOpts{Body: true, Response: true, Uploads: true, JSON: true, MaxArgs: 5, Abandon: true}
 	np := 1 + t.Draw(3)
 	sc := &c05Scenario{Config: text, FaultAt: -1}
@@ -85,6 +108,19 @@ func c05Run(w *verifrt.World, tier Tier) *RunResult {
 	}
 	ro.Abandon = false
 	sc.Probe = genScript(t, ro, "probe")
+	if override {
+		for _, p := range sc.Predecessors {
+			p.Headers = append(p.Headers, Header{"X-Pred", "1"})
+		}
+		if sc.Probe.BodyKind == "" {
+			sc.Probe.Method, sc.Probe.BodyKind, sc.Probe.ContentType = "POST", "urlencoded", "application/x-www-form-urlencoded"
+			sc.Probe.Body = []byte("a=EVIL&b=xy1")
+			sc.Probe.BodyChunks = nil
+		}
+		if len(sc.Probe.RespBody) == 0 {
+			sc.Probe.RespBody = []byte("response tok1")
+		}
+	}
 	if t.Draw(4) == 0 {
 		sc.FaultAt = t.Draw(12)
 		sc.FaultKind = pick(t, []string{"create-fail", "write-error", "short-write", "read-error", "close-error", "remove-error", "remove-error", "close-error"})
@@ -123,6 +159,7 @@ func c05Run(w *verifrt.World, tier Tier) *RunResult {
 	defer h.Close()
 	disk := simos.Disk()
 	faultFired := false
+	var lateReaders []io.Reader
 	for i, p := range sc.Predecessors {
 		base := len(disk.Ops)
 		filesBefore := disk.Files()
@@ -137,6 +174,7 @@ func c05Run(w *verifrt.World, tier Tier) *RunResult {
 		}
 		po := runTx(h, p)
 		disk.Decide = nil
+		lateReaders = append(lateReaders, po.heldLate...)
 		if po.Panic != "" {
 			res.fail("C05", "predecessor-panic", panicSite(po.Panic), "predecessor %d panicked in %s: %s\nconfiguration:\n%s", i, po.PanicStep, po.Panic, text)
 			return res
@@ -190,8 +228,48 @@ func c05Run(w *verifrt.World, tier Tier) *RunResult {
 	w.PoolPolicy = verifrt.PoolLIFO
 	// the probe itself runs first, on the object the last predecessor used;
 	// the bystander pair follows on whatever the pool holds then
+	readLate := func(when string) {
+		for i, r := range lateReaders {
+			var b []byte
+			pan := safely(func() { b, _ = io.ReadAll(io.LimitReader(r, 4096)) })
+			if pan != "" {
+				res.fail("C05", "reader-after-close", "held-reader-panic", "reading a body reader of a closed predecessor %s panicked: %s", when, pan)
+				lateReaders = nil
+				return
+			}
+			if len(b) > 0 {
+				res.fail("C05", "reader-after-close", "held-reader-late", "body reader %d handed out by a predecessor that is closed yields %q %s\nconfiguration:\n%s\nprobe: %s", i, clip(string(b), 200), when, text, jsonOf(sc.Probe))
+				lateReaders = nil
+				return
+			}
+		}
+	}
+	if len(lateReaders) > 0 {
+		sc.Probe.beforeClose = func() { readLate("while the probe holds the recycled object, all its calls made") }
+	}
 	got := runTx(h, sc.Probe)
-	byGot := byRun(h, func() { runTx(h, sc.Probe) })
+	sc.Probe.beforeClose = nil
+	readLate("after the probe ran on the recycled object")
+	if len(lateReaders) > 0 {
+		res.count("late_reader_checks", 1)
+	}
+	byGot := byRun(h, func() {
+		// while a later transaction is alive and has written its body
+		if p := safely(func() {
+			ltx := h.WAF.NewTransactionWithID("late")
+			ltx.ProcessURI("/late", "POST", "HTTP/1.1")
+			ltx.AddRequestHeader("Content-Type", "application/x-www-form-urlencoded")
+			ltx.ProcessRequestHeaders()
+			ltx.WriteRequestBody([]byte("late=secret"))
+			ltx.WriteResponseBody([]byte("late response"))
+			readLate("while a later transaction holds the recycled object with a body written")
+			ltx.ProcessLogging()
+			ltx.Close()
+		}); p != "" {
+			res.fail("C05", "probe-panic", "late/"+panicSite(p), "a transaction after the probe panicked: %s", p)
+		}
+		runTx(h, sc.Probe)
+	})
 	if byRef != byGot {
 		res.fail("C05", "live-transactions-share-state", "bystander", "a transaction kept alive while the probe ran behaves differently from the same transaction on a fresh WAF:\nfresh:   %s\nhistory: %s\nconfiguration:\n%s\npredecessors: %s", clip(byRef, 1500), clip(byGot, 1500), text, jsonOf(sc.Predecessors))
 	}
@@ -332,6 +410,6 @@ func init() {
 		Real:        []string{"whole engine, pool plumbing (internal/sync), BodyBuffer, body processors, audit log assembly and formatters"},
 		Stub:        []string{"sync.Pool policy (LIFO vs never reuse)", "file system", "clock", "audit writer (recording plugin)", "random source"},
 		Unchecked:   []string{"the predecessors' own outcomes", "TIME*, DURATION, ENV, FILES_TMPNAMES"},
-		MustHit:     []string{"probe_on_recycled_object", "predecessor_used_disk", "predecessor_interrupted", "probe_fired_rules"},
+		MustHit:     []string{"override_runs", "probe_on_recycled_object", "predecessor_used_disk", "predecessor_interrupted", "probe_fired_rules"},
 	})
 }
